@@ -100,7 +100,7 @@ def judge(chk, p, e):
     # which sources may change: those of M (local edit) or of modules whose import closure contains M (export edit), in some build
     allowed_src, other_src = set(), set()
     users, nonusers = 0, 0
-    d1 = {(b["builder"], b["app"]): b for b in e["r1"]["dump"]}
+    d1 = projrun.impl_builds(e["r1"])
     for b in projcheck.built(e["r0"]):
         names = [x["name"] for x in b["modules"]]
         mods = {x["name"]: x for x in b["modules"]}
